@@ -73,6 +73,8 @@ def _execute(ctx):
     # pairs: every base against QUOTE, optionally one inverse pair QUOTE/<inv quote> (a symbol that reaches the margin
     # quote symbol only through 1/price)
     pair_syms = [(b, QUOTE) for b in bases] + ([(QUOTE, inv["quote"])] if inv else [])
+    if scn.get("cross") and len(bases) >= 2:
+        pair_syms.append((bases[0], bases[1]))
     npairs = len(pair_syms)
     pb = [x[0] for x in pair_syms]
     pq = [x[1] for x in pair_syms]
@@ -1587,7 +1589,15 @@ def simplifications(scn):
         yield mod(lambda c: [c["scripts"].pop(k) for k in half])
         half2 = keys[:len(keys) // 2]
         yield mod(lambda c: [c["scripts"].pop(k) for k in half2])
-    if scn.get("inv"):
+    if scn.get("cross"):
+        def drop_cross(c):
+            c["cross"] = False
+            last = len(c["bars"]) - 1
+            c["bars"].pop()
+            for k in [k for k in c["scripts"] if int(k.split(":")[1]) >= last]:
+                c["scripts"].pop(k)
+        yield mod(drop_cross)
+    if scn.get("inv") and not scn.get("cross"):
         def drop_inv(c):
             c["inv"] = None
             c["bars"].pop()
@@ -1602,7 +1612,7 @@ def simplifications(scn):
                 c["scripts"].pop(k)
         yield mod(drop_inv)
     n = len(scn["bases"])
-    if n > 1 and not scn.get("inv"):
+    if n > 1 and not scn.get("inv") and not scn.get("cross"):
         def drop_pair(c):
             b = c["bases"].pop()
             c["bars"].pop()
